@@ -72,16 +72,58 @@ def classify(facts, g, bb, t):
             return "ACCUMULATE-LOOP", "count accumulated into the loop-controlling offset/remainder; 0 leaves through EOF/error"
         if zero_test and not arith and g.rec.get("impl_trait") == T_DROP:
             return "DRAIN-LOOP", "destructor loops until 0 or error"
+        if g.rec.get("impl_trait") == T_DROP and not arith:
+            # `while !self.finished { let _ = self.read(&mut scratch); }`: the type's own read keeps the end-of-body latch the loop tests
+            recv = g.origin(t["args"][0])
+            own = any(x == ("arg", 1) for x in origin_walk(recv)) and not origin_fields(recv)
+            dom = g.dominators(False)
+            guarded = False
+            for b2 in dom[bb]:
+                bs = bool_switch(g, b2)
+                if bs and g.in_loop(b2) and origin_fields(g.origin(bs[0])) and any(x == ("arg", 1) for x in origin_walk(g.origin(bs[0]))):
+                    guarded = True
+            if own and guarded:
+                return "DRAIN-LOOP", "destructor drains through the type's own read until its end-of-body flag is set"
         if arith and not zero_test:
             return None, "count accumulated but a zero-length read (EOF) is not handled: the loop cannot end on a closed connection"
         return None, "count neither accumulated nor tested"
     return None, "single read whose count does not become this function's own Read result: a short read would be treated as a full one"
 
 
+def lift_site(facts, g, bb):
+    """A read inside a private helper is judged in the function the helper serves: while the function holding the site is a private,
+    non-trait function whose callers all sit in one other function, move up; then find the site in that function's body with the helpers of
+    its file spliced in.  -> (function to analyse, block)"""
+    import inline
+    top = g
+    seen = {g.id}
+    while top.rec.get("impl_trait") is None and not top.rec.get("vis_pub") and "{closure" not in top.id:
+        callers = {h.id for h, b2, t2 in facts.callers_of(top.id)}
+        if len(callers) != 1:
+            break
+        nxt = facts.fns[next(iter(callers))]
+        if nxt.id in seen or nxt.file != top.file:
+            break
+        seen.add(nxt.id)
+        top = nxt
+    if top.id == g.id:
+        return g, bb
+    R = inline.inlined(facts, top.id, stop=lambda d: facts.fns[d].rec.get("local") and (facts.fns[d].file != top.file or d not in seen))
+    for b in range(R.n):
+        blk = R.blocks[b]
+        if blk.get("src") == g.id and blk.get("obb") == bb and not blk.get("synthetic"):
+            return R, b
+    return g, bb
+
+
 def run(ctx):
     facts = ctx.facts
     roles.bind(facts)
-    sites = [(g, bb, t) for g, bb, t in facts.all_calls(lambda t: t.get("callee") in ("std::io::Read::read", "std::io::Read::read_vectored"))]
+    raw_sites = [(g, bb, t) for g, bb, t in facts.all_calls(lambda t: t.get("callee") in ("std::io::Read::read", "std::io::Read::read_vectored"))]
+    sites = []
+    for g, bb, t in raw_sites:
+        R, b = lift_site(facts, g, bb)
+        sites.append((R, b, R.term(b)))
     ctx.floor("C13.1 Read::read call sites", len(sites), 6)
     classes = collections.Counter()
     for g, bb, t in sites:
@@ -94,7 +136,8 @@ def run(ctx):
     ctx.counts["C13.1 classes"] = dict(classes)
     # byte iterators
     bsites = [(g, bb, t) for g, bb, t in facts.all_calls(lambda t: t.get("callee") == "std::io::Read::bytes")]
-    rnl = roles.inherent(facts, CC, "read_next_line")
+    import parser_rules as PRS
+    rnl = PRS.pmodel(facts).line_reader()
     for g, bb, t in bsites:
         ok = g.id == rnl.id and g.in_loop(bb)
         ctx.ob("C13.1", "%s|bytes" % g.id, "byte-wise reading happens only in the line reader's loop", ok, g.loc(bb))
@@ -103,9 +146,9 @@ def run(ctx):
         ctx.ob("C13.1", "%s|%s" % (g.id, t["name"]), "read_exact / read_to_end loop internally (segmentation independent)", True, g.loc(bb), nontrivial=False)
 
     # ---- C13.2 buffers
-    cc_new = roles.inherent(facts, CC, "new")
+    cc_ctor = sorted({g_.id for g_, b_, s_ in facts.constructions(CC)})
     brs = [(g, bb) for g, bb, t in facts.all_calls(lambda t: call_matches(t, r"^std::io::BufReader::<R>::(new|with_capacity)$"))]
-    ctx.ob("C13.2", "one-bufreader", "one BufReader per connection, created in ClientConnection::new", len(brs) == 1 and brs[0][0].id == cc_new.id, cc_new.file)
+    ctx.ob("C13.2", "one-bufreader", "one BufReader per connection, created where the ClientConnection is built", len(brs) == 1 and brs[0][0].id in cc_ctor, facts.adt(CC)["file"])
     if brs:
         g, bb = brs[0]
         t = g.term(bb)
@@ -120,6 +163,25 @@ def run(ctx):
         fe = [x for x in origin_calls(o) if re.search(r"vec::from_elem|Vec::<T>::(new|with_capacity)$", x[1])] or [x for x in origin_walk(o) if x[0] == "repeat"]
         if g.rec.get("impl_trait") == T_DROP:
             ok, what = True, "discarded by design (destructor of a body reader)"
+        elif g.id == "request::new_request":
+            # decided on the framing model: on every path that builds a buffered body, the buffer the reads filled is the one the body reader wraps
+            import framing_rules as FRM, absint
+            FM = FRM.fmodel(facts)
+            rows = [r for r in FM.rows if r["kind"] == "ok" and r["reads"] > 0]
+            ok = bool(rows)
+            what = "moved into the request's body reader"
+            for r in rows:
+                p = r["path"]
+                allocs = [e for e in p.calls() if re.search(r"vec::from_elem|Vec::<T>::with_capacity$|Vec::<T>::new$", e[2])]
+                reads = [e for e in p.calls() if (e[6] or "").startswith("std::io::Read::read")]
+                cur = [e for e in p.calls() if re.search(r"std::io::Cursor::<T>::new$", e[2])]
+                good = False
+                for a in allocs:
+                    if all(any(absint.mentions_call(absint.deep(p.state, x), a[4]) or (d is not None and absint.mentions_call(d, a[4])) for x, d in zip(e[3], e[5])) for e in reads) and \
+                            any(absint.mentions_call(absint.deep(p.state, x), a[4]) for e in cur for x in e[3]):
+                        good = True
+                if not good or r["reader"] != "buffer":
+                    ok, what = False, "a locally filled buffer is not what the body reader wraps"
         else:
             # the buffer must be moved into the value handed on (Cursor -> Request)
             bl = shared.backward_slice_locals(g, [op_local(t["args"][1])])
@@ -155,7 +217,8 @@ def run(ctx):
 def line_reader_rules(ctx, facts, RULE):
     """the line reader assembles a line byte by byte: one buffer created before the loop, the `previous byte was CR`
     state carried across iterations, every byte kept until the terminator"""
-    rnl = roles.inherent(facts, CC, "read_next_line")
+    import parser_rules as PRS
+    rnl = PRS.pmodel(facts).line_reader()
     f = rnl
     ctx.touch(f)
     bsites = [(bb, t) for bb, t in f.calls() if t.get("callee") == "std::io::Read::bytes"]
